@@ -237,6 +237,11 @@ impl Fiber {
     self.state == FiberState::Pending
   }
 
+  /// Is this fiber blocked
+  pub fn is_blocked(&self) -> bool {
+    self.state == FiberState::Blocked
+  }
+
   /// Activate this fiber
   pub fn activate(&mut self) {
     assert!(matches!(
